@@ -1053,8 +1053,11 @@ def replay(ctx, obj):
         return
     if line.startswith("HIST "):
         toks = Run.hist_parse(r)["ops"] if r.startswith("OK") else []
-        if not r.startswith("OK") or any(t[0] != "K" for t in toks):
+        badi = [i for i, t in enumerate(toks) if t[0] != "K"]
+        if not r.startswith("OK"):
             ctx.violation(rp, what="replay reproduces: " + r[:200])
+        elif badi:
+            ctx.violation(rp, what="replay reproduces: operation #%d of the history answers %s after %d served operations" % (badi[0] + 1, toks[badi[0]], badi[0]))
         return
     if r.split()[0] != "OK" or (rp.get("c_result") and rp["c_result"].split()[0] == r.split()[0] and r.split()[0] != "OK"):
         ctx.violation(rp, what="replay reproduces: " + r[:200])
